@@ -27,6 +27,14 @@ type fakeField struct {
 	kind     protoreflect.Kind
 	repeated bool
 	msg      *fakeMsgDesc
+	enum     *fakeEnum
+}
+
+func (f *fakeField) Enum() protoreflect.EnumDescriptor {
+	if f.enum == nil {
+		return nil
+	}
+	return f.enum
 }
 
 func (f *fakeField) Name() protoreflect.Name { return protoreflect.Name(f.name) }
@@ -51,6 +59,48 @@ func (f *fakeField) Message() protoreflect.MessageDescriptor {
 	}
 	return f.msg
 }
+
+// fakeEnum: an enum descriptor with a few named numbers.
+type fakeEnumValue struct {
+	protoreflect.EnumValueDescriptor
+	name string
+	num  protoreflect.EnumNumber
+}
+
+func (v *fakeEnumValue) Name() protoreflect.Name         { return protoreflect.Name(v.name) }
+func (v *fakeEnumValue) Number() protoreflect.EnumNumber { return v.num }
+
+type fakeEnumValues struct {
+	protoreflect.EnumValueDescriptors
+	list []*fakeEnumValue
+}
+
+func (vs *fakeEnumValues) Len() int { return len(vs.list) }
+func (vs *fakeEnumValues) ByName(n protoreflect.Name) protoreflect.EnumValueDescriptor {
+	for _, v := range vs.list {
+		if v.name == string(n) {
+			return v
+		}
+	}
+	return nil
+}
+func (vs *fakeEnumValues) ByNumber(n protoreflect.EnumNumber) protoreflect.EnumValueDescriptor {
+	for _, v := range vs.list {
+		if v.num == n {
+			return v
+		}
+	}
+	return nil
+}
+
+type fakeEnum struct {
+	protoreflect.EnumDescriptor
+	name   string
+	values *fakeEnumValues
+}
+
+func (e *fakeEnum) FullName() protoreflect.FullName           { return protoreflect.FullName(e.name) }
+func (e *fakeEnum) Values() protoreflect.EnumValueDescriptors { return e.values }
 
 type fakeFields struct {
 	protoreflect.FieldDescriptors
